@@ -118,6 +118,12 @@ def check(ctx: Ctx):
         infos[cname] = render.check_renderer(ctx, cname)
         ctx.analysed(infos[cname]["fi"])
     render.check_renderer_siblings(ctx, infos)
+    from ..rules import support
+
+    # the renderer hands grid-shaped angle arrays to interface_distance through the scalar-argument decorator
+    support.check_scalar_wrapper(ctx)
+    support.check_elementwise_shape_methods(ctx)
+    ctx.expect("WRAP", 1)
     render.check_polar(ctx)
     render.check_arity(ctx)
     for cname in c13.CLASSES:
